@@ -167,7 +167,7 @@ def run(chk, P):
     c12.r12_5(Proxy(chk, 'R10.1'), P)
     chk.floor('R10.1', 2)
     r10_2(chk, P)
-    chk.floor('R10.2', 3)
+    chk.floor('R10.2', 2)
     r10_4(chk, P)
     chk.floor('R10.4', 2)
     r10_3(chk, P, E)
